@@ -557,6 +557,10 @@ class CtxAwareTransformer(NodeTransformer):
 
     def visit_Expr(self, node):
         """Handle visiting an expression."""
+        for subnode in walk(node.value):
+            # ``(x := 1)`` as a statement binds ``x`` for the following lines
+            if isinstance(subnode, NamedExpr) and isinstance(subnode.target, Name):
+                self.ctxadd(subnode.target.id)
         if isdescendable(node.value):
             node.value = self.visit(node.value)  # this allows diving into BoolOps
         if self._is_bare_builtin(node.value):
